@@ -421,6 +421,11 @@ class CircuitGraph(object):
 
         n1, n2 = node_names[0:2]
 
+        if n1 == n2:
+            # A component shorted by a wire; it is not across any
+            # pair of nodes.
+            return set([cpt_name])
+
         # This is trivial for a multigraph but a mutigraph adds
         # additional problems since component() will fail if have
         # multiple edges between the same nodes.
